@@ -11,6 +11,7 @@ import Gv.Model.Gen
 import Gv.Proofs.EvalLemmas
 import Gv.Proofs.EnumLemmas
 import Gv.Proofs.EnumFail
+import Gv.Proofs.EnumRun
 
 namespace Gv.Props.C08
 open Gv Gv.Str Gv.Eval Gv.Gen
@@ -811,5 +812,161 @@ example : ∃ e, enumPlan conv (cx0 badMap "@panic".toList) tyC tyS [] (st0 true
 example : ∃ e, enumPlan conv (cx0 goodMap "@error".toList) tyC tyS [] (st0 true) = .error e :=
   C08_error_action_fails_without_error_result conv _ tyC tyS [] (st0 true) (meth true) rfl rfl rfl
     color.consts shade.consts [] rfl rfl rfl (.inr rfl)
+end Ex
+/-! ### end to end: the generated switch at run time (`Gv/Proofs/EnumRun.lean`) -/
+
+open Gv.EnumRun in
+/-- **C08_end_to_end**: whatever `enumPlan` generates, for every program, fuel ≥ 1, frame, previous target value and
+counter:
+(2) on every value that is not the runtime value `.basic (constRepr sd.val)` of a declared source member (another payload,
+or not a basic value at all) the switch does exactly what `enum:unknown` prescribes (`RunsAs`: `@ignore` keeps what the
+target held – its zero value when fresh, `C08_ignore_zero` –, `@panic` panics, `@error` returns the error wrapped as
+configured at this position, KEY yields the runtime value of that target member);
+(1) on the runtime value of a declared member `sd` it does exactly what the name chosen for `sd` (`chooseEnumTarget`:
+enum:map, else transformers, else the same name) prescribes – also when `sd` shares its value, and so its `case`, with an
+earlier member –, provided distinct member values print differently (`constRepr`, by which the switch compares). -/
+theorem C08_end_to_end (c : Converter) (cx : Ctx) (s t : Ty) (path : List PathElem) (st st' : GState) (plan : Conv)
+    (h : enumPlan c cx s t path st = .ok (plan, st')) :
+    ∃ sm tm tmap,
+      enumMembers c cx.cfg.common s = some sm ∧ enumMembers c cx.cfg.common t = some tm ∧
+      enumTransformers c sm tm cx.cfg.transformers [] = .ok tmap ∧
+      (∀ (p : Program) (fuel : Nat) (fr : Frame) (v old : Val) (n : Nat),
+        (∀ sd, sd ∈ sm → v ≠ .basic (constRepr sd.val)) →
+        RunsAs cx path tm fr old n cx.cfg.common.enumUnknown (evalConv p (fuel + 1) fr plan v old n)) ∧
+      ((∀ a b, a ∈ sm → b ∈ sm → constRepr a.val = constRepr b.val → a.val = b.val) →
+        ∀ sd, sd ∈ sm → ∀ (p : Program) (fuel : Nat) (fr : Frame) (old : Val) (n : Nat),
+          RunsAs cx path tm fr old n (chooseEnumTarget cx.cfg.enumMap tmap sd.name)
+            (evalConv p (fuel + 1) fr plan (.basic (constRepr sd.val)) old n)) := by
+  obtain ⟨sm, tm, tmap, dflt, hsm, htm, htr, hd, h2, h1⟩ := enumPlan_run c cx s t path st st' plan h
+  refine ⟨sm, tm, tmap, hsm, htm, htr, ?_, ?_⟩
+  · intro p fuel fr v old n hv
+    rw [h2 p fuel fr v old n hv]
+    exact actionOf_runsAs cx path tm _ dflt hd fr old n
+  · intro hinj sd hsd p fuel fr old n
+    obtain ⟨act, hact, hrun⟩ := h1 hinj sd hsd
+    rw [hrun p fuel fr old n]
+    exact actionOf_runsAs cx path tm _ act hact fr old n
+
+open Gv.EnumRun in
+/-- the member ↦ member case spelled out: a source member whose chosen name is the target member `td` converts to `td`'s value -/
+theorem C08_member_to_member (c : Converter) (cx : Ctx) (s t : Ty) (path : List PathElem) (st st' : GState) (plan : Conv)
+    (h : enumPlan c cx s t path st = .ok (plan, st'))
+    (sm tm : List ConstDecl) (tmap : List (S × S))
+    (hsm : enumMembers c cx.cfg.common s = some sm) (htm : enumMembers c cx.cfg.common t = some tm)
+    (htr : enumTransformers c sm tm cx.cfg.transformers [] = .ok tmap)
+    (hinj : ∀ a b, a ∈ sm → b ∈ sm → constRepr a.val = constRepr b.val → a.val = b.val)
+    (sd : ConstDecl) (hsd : sd ∈ sm) (td : ConstDecl)
+    (hna : Settings.isEnumAction (chooseEnumTarget cx.cfg.enumMap tmap sd.name) = false)
+    (htd : tm.find? (·.name == chooseEnumTarget cx.cfg.enumMap tmap sd.name) = some td)
+    (p : Program) (fuel : Nat) (fr : Frame) (old : Val) (n : Nat) :
+    evalConv p (fuel + 1) fr plan (.basic (constRepr sd.val)) old n = .ok (.basic (constRepr td.val), n) := by
+  obtain ⟨sm', tm', tmap', hsm', htm', htr', _, h1⟩ := C08_end_to_end c cx s t path st st' plan h
+  rw [hsm] at hsm'; cases hsm'
+  rw [htm] at htm'; cases htm'
+  rw [htr] at htr'; cases htr'
+  have hact : ∀ a : S, Settings.isEnumAction a = true → chooseEnumTarget cx.cfg.enumMap tmap sd.name ≠ a := by
+    intro a ha heq; rw [heq, ha] at hna; cases hna
+  rcases h1 hinj sd hsd p fuel fr old n with ⟨hn, _⟩ | ⟨hn, _⟩ | ⟨hn, _⟩ | ⟨_, td', htd', hr⟩
+  · exact absurd hn (hact _ (by decide))
+  · exact absurd hn (hact _ (by decide))
+  · exact absurd hn (hact _ (by decide))
+  · rw [htd] at htd'; cases htd'; exact hr
+
+/-! non-vacuity of the end-to-end theorem on the Color → Shade converter: a member, an alias member (`Red` shares the value 0
+and the `case` of `Crimson`), a non-member, under three unknown policies -/
+namespace Ex
+open Gv.EnumRun
+
+def casesGood : List (S × ConstVal × EnumAction) :=
+  [("Crimson".toList, .int 0, .member "Blue".toList (.int 5)), ("Teal".toList, .int 1, .member "Red".toList (.int 7))]
+
+theorem plan_of (unknown : S) (dflt : EnumAction) (hd : enumAction (cx0 goodMap unknown) [] shade.consts unknown (st0 true) = .ok (dflt, st0 true))
+    (hne : unknown.isEmpty = false) :
+    enumPlan conv (cx0 goodMap unknown) tyC tyS [] (st0 true) = .ok (.enumc casesGood dflt, st0 true) := by
+  rw [EnumFail.enumPlan_eq' conv (cx0 goodMap unknown) tyC tyS [] (st0 true) color.consts shade.consts [] rfl rfl rfl]
+  have hc : enumCases (cx0 goodMap unknown) [] shade.consts [] color.consts
+      { remaining := if (cx0 goodMap unknown).fieldsTarget == tyS then (cx0 goodMap unknown).cfg.enumMap.map (·.1) else [] } (st0 true) =
+      .ok ({ cases := casesGood, seenVals := [(.int 0, "Blue".toList), (.int 1, "Red".toList)], remaining := [] }, st0 true) := by rfl
+  rw [hc]
+  simp only []
+  have : (cx0 goodMap unknown).cfg.common.enumUnknown = unknown := rfl
+  rw [this, hne, hd]
+  rfl
+
+theorem colorInj : ∀ a b, a ∈ color.consts → b ∈ color.consts → constRepr a.val = constRepr b.val → a.val = b.val := by
+  intro a b ha hb
+  simp only [color, List.mem_cons, List.not_mem_nil, or_false] at ha hb
+  rcases ha with rfl | rfl | rfl <;> rcases hb with rfl | rfl | rfl <;> decide
+
+/-- `Crimson` (0) ↦ `Blue` (5), and the alias `Red` (0, mapped to `Navy` = 5) takes the same case -/
+example (p : Program) (fuel : Nat) (fr : Frame) (old : Val) (n : Nat) :
+    evalConv p (fuel + 1) fr (.enumc casesGood .panic) (.basic (constRepr (.int 0))) old n = .ok (.basic (constRepr (.int 5)), n) :=
+  C08_member_to_member conv (cx0 goodMap "@panic".toList) tyC tyS [] (st0 true) (st0 true) _ (plan_of _ .panic rfl rfl)
+    color.consts shade.consts [] rfl rfl rfl colorInj ⟨"Crimson".toList, true, .int 0⟩ (by simp [color])
+    ⟨"Blue".toList, true, .int 5⟩ (by decide) rfl p fuel fr old n
+example (p : Program) (fuel : Nat) (fr : Frame) (old : Val) (n : Nat) :
+    evalConv p (fuel + 1) fr (.enumc casesGood .panic) (.basic (constRepr (.int 0))) old n = .ok (.basic (constRepr (.int 5)), n) :=
+  C08_member_to_member conv (cx0 goodMap "@panic".toList) tyC tyS [] (st0 true) (st0 true) _ (plan_of _ .panic rfl rfl)
+    color.consts shade.consts [] rfl rfl rfl colorInj ⟨"Red".toList, true, .int 0⟩ (by simp [color])
+    ⟨"Navy".toList, true, .int 5⟩ (by decide) rfl p fuel fr old n
+
+/-- 9 is the value of no member -/
+theorem nine_unknown : ∀ sd, sd ∈ color.consts → Val.basic "9".toList ≠ .basic (constRepr sd.val) := by
+  intro sd hsd
+  simp only [color, List.mem_cons, List.not_mem_nil, or_false] at hsd
+  rcases hsd with rfl | rfl | rfl <;> (intro h; have := Val.basic.inj h; revert this; decide)
+
+/-- … and follows enum:unknown: `@panic` panics, `@ignore` keeps the target, `Blue` yields 5 -/
+example (p : Program) (fuel : Nat) (fr : Frame) (old : Val) (n : Nat) :
+    RunsAs (cx0 goodMap "@panic".toList) [] shade.consts fr old n "@panic".toList
+      (evalConv p (fuel + 1) fr (.enumc casesGood .panic) (.basic "9".toList) old n) := by
+  obtain ⟨sm, tm, tmap, hsm, htm, _, h2, _⟩ :=
+    C08_end_to_end conv (cx0 goodMap "@panic".toList) tyC tyS [] (st0 true) (st0 true) _ (plan_of _ .panic rfl rfl)
+  cases hsm; cases htm
+  exact h2 p fuel fr _ old n nine_unknown
+example (p : Program) (fuel : Nat) (fr : Frame) (old : Val) (n : Nat) :
+    evalConv p (fuel + 1) fr (.enumc casesGood .panic) (.basic "9".toList) old n = .panic .enumUnknown := by
+  obtain ⟨sm, tm, tmap, hsm, htm, _, h2, _⟩ :=
+    C08_end_to_end conv (cx0 goodMap "@panic".toList) tyC tyS [] (st0 true) (st0 true) _ (plan_of _ .panic rfl rfl)
+  cases hsm; cases htm
+  rcases h2 p fuel fr _ old n nine_unknown with ⟨hn, _⟩ | ⟨_, hr⟩ | ⟨hn, _⟩ | ⟨hn, _⟩
+  · exact absurd hn (by decide)
+  · exact hr
+  · exact absurd hn (by decide)
+  · exact absurd hn (by decide)
+example (p : Program) (fuel : Nat) (fr : Frame) (old : Val) (n : Nat) :
+    evalConv p (fuel + 1) fr (.enumc casesGood .ignore) (.basic "9".toList) old n = .ok (old, n) := by
+  obtain ⟨sm, tm, tmap, hsm, htm, _, h2, _⟩ :=
+    C08_end_to_end conv (cx0 goodMap "@ignore".toList) tyC tyS [] (st0 true) (st0 true) _ (plan_of _ .ignore rfl rfl)
+  cases hsm; cases htm
+  rcases h2 p fuel fr _ old n nine_unknown with ⟨_, hr⟩ | ⟨hn, _⟩ | ⟨hn, _⟩ | ⟨hn, _⟩
+  · exact hr
+  · exact absurd hn (by decide)
+  · exact absurd hn (by decide)
+  · exact absurd hn (by decide)
+example (p : Program) (fuel : Nat) (fr : Frame) (old : Val) (n : Nat) :
+    evalConv p (fuel + 1) fr (.enumc casesGood (.member "Blue".toList (.int 5))) (.basic "9".toList) old n =
+      .ok (.basic (constRepr (.int 5)), n) := by
+  obtain ⟨sm, tm, tmap, hsm, htm, _, h2, _⟩ :=
+    C08_end_to_end conv (cx0 goodMap "Blue".toList) tyC tyS [] (st0 true) (st0 true) _ (plan_of _ (.member "Blue".toList (.int 5)) rfl rfl)
+  cases hsm; cases htm
+  rcases h2 p fuel fr _ old n nine_unknown with ⟨hn, _⟩ | ⟨hn, _⟩ | ⟨hn, _⟩ | ⟨_, td, htd, hr⟩
+  · exact absurd hn (by decide)
+  · exact absurd hn (by decide)
+  · exact absurd hn (by decide)
+  · have : td = ⟨"Blue".toList, true, .int 5⟩ := by
+      have h0 : shade.consts.find? (fun x => x.name == "Blue".toList) = some ⟨"Blue".toList, true, .int 5⟩ := rfl
+      have : (cx0 goodMap "Blue".toList).cfg.common.enumUnknown = "Blue".toList := rfl
+      rw [this, h0] at htd; cases htd; rfl
+    subst this; exact hr
+
+/-- why the printing hypothesis is there: the switch compares printed values, so two members whose DIFFERENT values print
+alike (an untyped model artefact: `1` and `"1"`) would share the first case -/
+theorem C08_repr_collision_witness (p : Program) (fuel : Nat) (fr : Frame) (old : Val) (n : Nat) :
+    evalConv p (fuel + 1) fr
+      (.enumc [("A".toList, .int 1, .member "X".toList (.int 10)), ("B".toList, .str "1".toList, .member "Y".toList (.int 20))] .panic)
+      (.basic (constRepr (.str "1".toList))) old n = .ok (.basic (constRepr (.int 10)), n) := by
+  rw [evalConv_enumc]
+  rfl
 end Ex
 end Gv.Props.C08
